@@ -7,14 +7,17 @@ CFG = {
                           # AUDIT2 c35 - c37: signed builds, the signature's creation time, the archive, accessor-level mtimes
                           "RpmVerif.C11.clampNow_le", "RpmVerif.C11.build_sign_bytes_deterministic", "RpmVerif.C11.sigtime_clamped",
                           "RpmVerif.C11.archive_entries_spec", "RpmVerif.C11.archive_clock_free", "RpmVerif.C11.file_entry_mtimes_clamped"],
-    "trivial_branches": ["build-rejected"],
+    "trivial_branches": ["build-rejected", "future-source-date"],
     "rule": "C06-style random configurations with a source date in the past of every clock used and 0..5 extra files owned by distinct non-root users / "
             "groups (the former HashSet order), file mtimes before and after the source date; every configuration is built 5 times in-process with "
-            "different pinned clocks and in 2 (quick) / 4 (thorough) freshly started child processes (different RandomState seeds, TZ, LANG, environment), "
+            "different pinned clocks and in 2 (quick) / 4 (thorough) freshly started child processes (different RandomState seeds, TZ, LANG, environment, each in its own "
+            "working directory), "
             "a quarter signed with Ed25519 and a few with RSA-4096 (deterministic schemes; ECDSA excluded); all package bytes are compared, the main "
             "header also with the model's byte-exact prediction; build time, max file mtime, the greatest c_mtime of the cpio archive and the signature creation time are read back - the latter from the legacy tag AND from every "
             "base64 item under RPMSIGTAG_OPENPGP (count, creation times, byte-equality of the two copies). "
-            "Non-trivial = build accepted; distinct = distinct requests.",
+            "Every eighth configuration is also run with a source date in the FUTURE of every clock (1 800 000 000, now + 900 000, u32::MAX; half of them signed): "
+            "outside the reproducibility clause (the model predicts that every run differs, in the build time), judged for 'no timestamp later than the source date'. "
+            "Non-trivial = build accepted with a source date in the past; distinct = distinct requests.",
     "exhaustive": False,
     "shards": {"quick": 8, "thorough": 16},
     "shrink": False,
